@@ -266,8 +266,18 @@ def run_groupby(rep, rng, n):
                 seen[k] = s.tolist()
             return True
         present = {A.to_py(k) for k in c["keys"] if k != A.NULL} | set(cats or [])
-        schema = pa.DataFrameSchema({"v": pa.Column(int, pa.Check(fn, groupby="g", groups=c["py_groups"])),
-                                     "g": pa.Column(None if cats else str, nullable=True)})
+        level = c.setdefault("level", "column" if (len(c["keys"]) + len(c["vals"]) + sum(map(ord, str(c["py_groups"])))) % 3 else "frame")
+        if level == "frame":
+            # the same check declared on the DataFrameSchema: the function gets {group: sub-frame}
+            def fn(d):  # noqa: F811
+                for k, s in d.items():
+                    seen[k] = s["v"].tolist()
+                return True
+            schema = pa.DataFrameSchema({"v": pa.Column(int), "g": pa.Column(None if cats else str, nullable=True)},
+                                        checks=pa.Check(fn, groupby="g", groups=c["py_groups"]))
+        else:
+            schema = pa.DataFrameSchema({"v": pa.Column(int, pa.Check(fn, groupby="g", groups=c["py_groups"])),
+                                         "g": pa.Column(None if cats else str, nullable=True)})
         with warnings.catch_warnings():
             warnings.simplefilter("ignore")
             try:
@@ -275,8 +285,8 @@ def run_groupby(rep, rng, n):
                 raised = None
             except Exception as e:  # noqa: BLE001
                 raised = e
-        rep.case({k: c.get(k) for k in ("keys", "vals", "py_groups", "categories")}, nontrivial=len(c["keys"]) > 0)
-        rep.count("groupby" + (":categorical" if cats else ""))
+        rep.case({k: c.get(k) for k in ("keys", "vals", "py_groups", "categories", "level")}, nontrivial=len(c["keys"]) > 0)
+        rep.count("groupby:" + level + (":categorical" if cats else ""))
         expected = {g: [] for g in (cats or []) if c["py_groups"] is None or g in c["py_groups"]}
         for k, v in zip(c["keys"], c["vals"]):
             if k == A.NULL:
@@ -288,22 +298,22 @@ def run_groupby(rep, rng, n):
         if invalid:
             # documented: an unknown group is a failed check, not a crash
             if raised is None or not isinstance(raised, pa.errors.SchemaError):
-                rep.property_failure({k: c.get(k) for k in ("keys", "vals", "py_groups", "categories")},
+                rep.property_failure({k: c.get(k) for k in ("keys", "vals", "py_groups", "categories", "level")},
                                      f"unknown group key: expected a failed check, got {type(raised).__name__}")
             continue
         if raised is not None:
-            rep.property_failure({k: c.get(k) for k in ("keys", "vals", "py_groups", "categories")},
+            rep.property_failure({k: c.get(k) for k in ("keys", "vals", "py_groups", "categories", "level")},
                                  f"groupby check raised {type(raised).__name__}: {str(raised)[:100]}")
             continue
         if seen != expected:
-            rep.property_failure({k: c.get(k) for k in ("keys", "vals", "py_groups", "categories")},
+            rep.property_failure({k: c.get(k) for k in ("keys", "vals", "py_groups", "categories", "level")},
                                  f"groupby handed {seen}, the groups are {expected}")
             continue
         model = {A.to_py(k): [A.to_py(x) for x in vs] for k, vs in a}
         if cats:
             continue            # (the Lean `groupsDict` has no notion of declared categories)
         if model != seen:
-            rep.correspondence_break({k: c.get(k) for k in ("keys", "vals", "py_groups", "categories")},
+            rep.correspondence_break({k: c.get(k) for k in ("keys", "vals", "py_groups", "categories", "level")},
                                      "groupsDict model differs", detail={"model": model, "impl": seen})
 
 
@@ -364,6 +374,50 @@ def run_frames(rep, rng, n):
                                  f"cases of the full report are {want[:nf]}")
 
 
+def run_polars_options(rep, rng, n):
+    """polars check backend: an element-wise check is the vectorised check that maps the function over the elements —
+    same verdict and same failure cases, with nulls hidden under `ignore_na=True` and failing under `ignore_na=False`"""
+    try:
+        import polars as pl
+        import pandera.polars as pap
+        import pandera as pa
+    except Exception:  # noqa: BLE001
+        rep.count("polars:unavailable")
+        return
+    for _ in range(n):
+        m = rng.randint(1, 6)
+        vals = [rng.choice([-2, -1, 1, 2, 3, None]) for _ in range(m)]
+        thr = rng.choice([0, 1, 2])
+        ign = rng.random() < 0.5
+        case = {"mode": "polars-options", "vals": vals, "thr": thr, "ignore_na": ign}
+        df = pl.DataFrame({"a": vals}, schema={"a": pl.Int64})
+        out = {}
+        for form, chk in (("element_wise", pap.Check(lambda x, t=thr: x > t, element_wise=True, ignore_na=ign)),
+                          ("vectorised", pap.Check(lambda d, t=thr: d.lazyframe.select(pl.col(d.key) > t), ignore_na=ign)),
+                          ("built-in", pap.Check.gt(thr, ignore_na=ign))):
+            with warnings.catch_warnings():
+                warnings.simplefilter("ignore")
+                try:
+                    pap.DataFrameSchema({"a": pap.Column(pl.Int64, chk, nullable=True)}).validate(df, lazy=True)
+                    out[form] = ("ok", [])
+                except pa.errors.SchemaErrors as e:
+                    fc = e.failure_cases
+                    out[form] = ("errors", sorted(str(x) for x in fc["failure_case"].to_list()))
+                except Exception as e:  # noqa: BLE001
+                    out[form] = ("crash:" + type(e).__name__, [])
+        rep.case(case, nontrivial=None in vals)
+        rep.evaluations += 1
+        bad = sorted(str(v) for v in vals if (v is None and not ign) or (v is not None and not v > thr))
+        documented = ("errors", bad) if bad else ("ok", [])
+        rep.count(f"polars-options:{documented[0]}")
+        for form, got in out.items():
+            if got[0] != documented[0] or (got[0] == "errors" and got[1] != documented[1]):
+                rep.property_failure(dict(case, form=form),
+                                     f"polars {form} check x > {thr} with ignore_na={ign} on {vals}: {got}, documented "
+                                     f"{documented} (the forms give {out})")
+                break
+
+
 def run_aliases(rep):
     import pandera as pa
     A.ensure_backends()
@@ -397,6 +451,8 @@ def run(tier, replay=None):
         case = json.loads(open(replay).read())["case"]
         if "pred" in case:
             run_options(rep, [case])
+        elif case.get("mode") == "polars-options":
+            run_polars_options(rep, rng_for(PROP, "polars-options"), 250)
         else:
             run_groupby(rep, rng, 200)
             run_aliases(rep)
@@ -405,6 +461,7 @@ def run(tier, replay=None):
     run_options(rep, [c for c in corpus_cases(PROP) if "pred" in c] + [gen_case(rng) for _ in range(n)])
     run_groupby(rep, rng, n // 5)
     run_frames(rep, rng_for(PROP, "frames"), n // 4)
+    run_polars_options(rep, rng_for(PROP, "polars-options"), n // 4)
     run_aliases(rep)
     return rep.finish(
         rule="check functions from a generated predicate family (threshold, parity, membership, constant, "
